@@ -884,7 +884,7 @@ def robot_cases(pid, deep=False):
 
 class RobotLab(Lab):
     budgets = {"quick": 800, "thorough": 30000}
-    time_budget = {"quick": 90, "thorough": 1500}
+    time_budget = {"quick": 240, "thorough": 3600}
     assumptions = (
         "HAL simulator notifier/clock semantics (stepTimingAsync, paused clock) and the DriverStation simulator stand in for the roboRIO and the field",
         "the harness steps the clock only to the next armed notifier alarm, so one step is exactly one loop iteration",
